@@ -13,6 +13,10 @@ impl Monitor for C20 {
     fn prop(&self) -> &'static str {
         "C20"
     }
+    fn scalable(&self, g: &str) -> bool {
+        let _ = g;
+        true
+    }
     fn gens(&self, tier: Tier) -> Vec<Gen> {
         vec![gen("histories", tier.pick(2_000, 1_000_000, 4)), gen("malformed", tier.pick(400, 200_000, 2))]
     }
